@@ -25,6 +25,13 @@ def build_case_inputs(case):
     from ..gen.schema import Arg, Field, generate_schema
 
     dirty = set(case.get("dirty", []))
+    if case.get("_sdl"):
+        import re
+        sdl = case["_sdl"]
+        schema_ref = build_schema(sdl)
+        ops = [d for d in (case.get("_queries") or "").split("\n\n") if d.strip()]
+        inputs = re.findall(r"query Carry\d+\(\$payload: (\w+)\)", case.get("_queries") or "")
+        return sdl, ops, set(case.get("_features", [])), schema_ref, inputs
     s = case["seed"] * 100003 + case["idx"]
     spec, feats, gen = generate_schema(s, dirty, size="l")
     q = spec.roots["query"]
@@ -298,7 +305,7 @@ def run(tier: str, seed: int) -> int:
 
 
 def replay(data) -> int:
-    case = {k: v for k, v in data["case"].items() if not k.startswith("_")}
+    case = dict(data["case"])
     res = core.run_forked([case], worker)[0]
     print("status:", res.status, res.note)
     for v in res.violations:
